@@ -4,6 +4,7 @@ package vharness
 // Oracles use only logical stamps recorded at the client boundary (DESIGN.md §6 C06).
 
 import (
+	"context"
 	"fmt"
 	"strings"
 	"sync"
@@ -34,11 +35,13 @@ type c06Cfg struct {
 	Barrier  string // WaitUntilFinished, PauseAndWait, Stop, WaitAndStop
 	Callers  int    // concurrent barrier callers
 	Purge    bool
+	Ctx      bool   // the worker is configured with a context that is cancelled while the barrier callers run
+	Mixed    string // Pause or Stop: another goroutine makes that call while the barrier callers run
 }
 
 func (c c06Cfg) String() string {
-	return fmt.Sprintf("%s wk=%v qk=%v conc=%d exp=%v jobs=%d prods=%d cancel=%v join=%v barrier=%s callers=%d purge=%v",
-		c.Fam, c.WK, c.QK, c.Conc, c.Expiry, c.NJobs, c.Prods, c.Cancel, c.JoinProd, c.Barrier, c.Callers, c.Purge)
+	return fmt.Sprintf("%s wk=%v qk=%v conc=%d exp=%v jobs=%d prods=%d cancel=%v join=%v barrier=%s callers=%d purge=%v ctx=%v mixed=%s",
+		c.Fam, c.WK, c.QK, c.Conc, c.Expiry, c.NJobs, c.Prods, c.Cancel, c.JoinProd, c.Barrier, c.Callers, c.Purge, c.Ctx, c.Mixed)
 }
 
 func drawC06(r *Rng, fam string) c06Cfg {
@@ -95,6 +98,13 @@ func epC06(c *RunCtx, cfg c06Cfg) *Result {
 		if cfg.Expiry > 0 {
 			wcfg = append(wcfg, varmqExpiry(cfg.Expiry))
 		}
+		var cancel context.CancelFunc
+		if cfg.Ctx {
+			var ctx context.Context
+			ctx, cancel = context.WithCancel(context.Background())
+			defer cancel()
+			wcfg = append(wcfg, varmq.WithContext(ctx))
+		}
 		s := NewSubject(cfg.WK, k.Work, wcfg...)
 		q := s.Bind(cfg.QK, nil)
 		var wg sync.WaitGroup
@@ -122,6 +132,21 @@ func epC06(c *RunCtx, cfg c06Cfg) *Result {
 		}
 		// barrier callers
 		var bw sync.WaitGroup
+		if cfg.Ctx {
+			// the context listener stops the worker while the barrier callers are on their way
+			bw.Add(1)
+			go func() {
+				defer bw.Done()
+				k.Call("CtxCancel", 0, func() error { cancel(); return nil })
+			}()
+		}
+		if cfg.Mixed != "" {
+			bw.Add(1)
+			go func() {
+				defer bw.Done()
+				k.Control(s.W, cfg.Mixed, 0)
+			}()
+		}
 		for b := 0; b < cfg.Callers; b++ {
 			bw.Add(1)
 			go func() {
@@ -141,11 +166,13 @@ func epC06(c *RunCtx, cfg c06Cfg) *Result {
 			return
 		}
 		// bring the worker back and drain, so that every episode ends at rest
-		switch cfg.Barrier {
-		case "PauseAndWait":
-			k.Control(s.W, "Resume", 0)
-		case "Stop", "WaitAndStop":
+		switch {
+		case cfg.Ctx:
+			// the cancelled worker stays stopped; whatever is pending stays pending
+		case cfg.Barrier == "Stop" || cfg.Barrier == "WaitAndStop" || cfg.Mixed == "Stop":
 			k.Control(s.W, "Restart", 0)
+		case cfg.Barrier == "PauseAndWait" || cfg.Mixed == "Pause":
+			k.Control(s.W, "Resume", 0)
 		}
 		if !k.Await(func() { k.Control(s.W, "WaitUntilFinished", 0) }) {
 			hangFail(e, "C06", "WaitUntilFinished(final)", bid)
@@ -255,6 +282,11 @@ func runningThroughout(ctl []CtlRec, b *CtlRec) bool {
 			continue
 		}
 		switch c.Kind {
+		case "CtxCancel":
+			// from the cancellation on the worker is being stopped by its listener, asynchronously
+			if c.Call < b.Ret {
+				return false
+			}
 		case "Pause", "PauseAndWait", "Stop", "WaitAndStop", "Resume", "Restart":
 			// overlapping lifecycle call: not the situation the statement describes
 			if c.Call < b.Ret && (c.Ret == 0 || c.Ret > b.Call) {
@@ -429,6 +461,19 @@ func runC06(c *RunCtx) {
 			cfg := drawC06(p.Rng, "barrier")
 			p.Explore(func(pl Plan) *Result { return epC06(c, cfg) },
 				ExploreOpts{Base: 3, Noise: c.Q(20, 100), K: c.Q(2, 5), Funcs: funcs, Pairs: c.Q(20, 150), MaxCases: c.Q(250, 3000)})
+		})
+	}
+	for v := 0; v < c.Q(48, 200); v++ {
+		c.Program(fmt.Sprintf("ctx-barrier/%d", v), func(p *Prog) {
+			cfg := drawC06(p.Rng, Pick(p.Rng, "barrier", "barrier", "wuf"))
+			cfg.Ctx, cfg.Purge = true, false
+			if v%3 == 2 {
+				// the same overlap without a context: a client pauses or stops the worker
+				cfg.Ctx, cfg.Mixed = false, Pick(p.Rng, "Pause", "Stop")
+			}
+			cfg.Callers = Pick(p.Rng, 1, 2, 3)
+			p.Explore(func(pl Plan) *Result { return epC06(c, cfg) },
+				ExploreOpts{Base: 4, Noise: c.Q(20, 100), K: c.Q(2, 5), Funcs: append([]string{"stop", "goListenToContext", "Context"}, c06Funcs...), Pairs: c.Q(20, 150), MaxCases: c.Q(250, 3000)})
 		})
 	}
 	for v := 0; v < c.Q(32, 96); v++ {
